@@ -225,7 +225,10 @@ func r16tAddressingIsStateless(c *core.Ctx) {
 	c.Check(R, "stateless/summary", roots[0].Pos(), bad == 0 && nmod >= 6, fmt.Sprintf("%d module functions below the addressing functions: no package-level store, no cache map, no sync", nmod), fmt.Sprintf("%d uses of shared state", bad))
 }
 
-func init() { reg("R47", r47SchemaCopied) }
+func init() {
+	reg("R47", r47SchemaCopied)
+	reg("R48", r48DeviationReported)
+}
 
 // R47: the target table is created from the source table's description, field
 // by field: name, columns (createSQL, R33), geometry column, geometry type and
@@ -466,4 +469,133 @@ func r47ScanMatchesSelect(c *core.Ctx, f *core.Func, dest map[string]string, fix
 		}
 	}
 	c.Check(R, construct, scan.Pos(), bad == "", fmt.Sprintf("%d columns, each scanned into the field it describes", len(cols)), "the catalogue columns do not land in the fields they describe: "+bad)
+}
+
+
+// R48: the deviation of a grid that does not divide evenly is reported when it reaches one pixel.  DeviationStats
+// returns the deviation in CRS units and that value divided by the float pixel size; validateTileMatrixSet warns
+// exactly when the pixel figure is >= 1 and prints the unit figure.
+func r48DeviationReported(c *core.Ctx) {
+	const R = "R48"
+	ds := c.Anchor(R, "pointindex.DeviationStats")
+	v := c.Anchor(R, "main.validateTileMatrixSet")
+	if ds == nil || v == nil || ds.SSA == nil || v.SSA == nil {
+		return
+	}
+	res := ds.Obj.Type().(*types.Signature).Results()
+	unitIdx, pixIdx := -1, -1
+	for i := 0; i < res.Len(); i++ {
+		switch res.At(i).Name() {
+		case "deviationInUnits":
+			unitIdx = i
+		case "deviationInPixels":
+			pixIdx = i
+		}
+	}
+	if unitIdx < 0 || pixIdx < 0 {
+		// unnamed results: the two float64 results in order (units, pixels)
+		var fl []int
+		for i := 0; i < res.Len(); i++ {
+			if b, ok := res.At(i).Type().Underlying().(*types.Basic); ok && b.Kind() == types.Float64 {
+				fl = append(fl, i)
+			}
+		}
+		if len(fl) == 2 {
+			unitIdx, pixIdx = fl[0], fl[1]
+		}
+	}
+	if unitIdx < 0 || pixIdx < 0 {
+		c.Bad(R, "deviation-results/"+ds.Name, ds.Decl.Pos(), "DeviationStats does not return the deviation in units and in pixels")
+		return
+	}
+	// (a) pixels = units / float pixel size, float pixel size = float span / deepest size
+	okDiv, n := true, 0
+	for _, b := range ds.SSA.Blocks {
+		for _, in := range b.Instrs {
+			ret, ok := in.(*ssa.Return)
+			if !ok || len(ret.Results) <= pixIdx {
+				continue
+			}
+			if k, isK := ret.Results[pixIdx].(*ssa.Const); isK && k.Float64() == 0 {
+				continue // error exits
+			}
+			n++
+			q, ok := ret.Results[pixIdx].(*ssa.BinOp)
+			if !ok || q.Op != token.QUO || q.X != ret.Results[unitIdx] {
+				okDiv = false
+				continue
+			}
+			px, ok := q.Y.(*ssa.BinOp)
+			if !ok || px.Op != token.QUO {
+				okDiv = false
+				continue
+			}
+			cv, ok := px.Y.(*ssa.Convert)
+			if !ok || !isFieldRead(cv.X, "deepestSize") {
+				okDiv = false
+			}
+		}
+	}
+	c.Check(R, "pixels-are-units-over-pixel-size/"+ds.Name, ds.Decl.Pos(), okDiv && n >= 1, "deviationInPixels = deviationInUnits / (float span / deepest size)", "DeviationStats no longer returns the unit deviation divided by the float pixel size as the pixel deviation")
+	// (b) the warning
+	calls := findCalls(v.SSA, core.ModPath+"/pointindex.DeviationStats")
+	if len(calls) != 1 {
+		c.Bad(R, "warns-from-one-pixel/"+v.Name, v.Decl.Pos(), "expected one DeviationStats call in validateTileMatrixSet")
+		return
+	}
+	pix, units := extractOf(calls[0], pixIdx), extractOf(calls[0], unitIdx)
+	var guard *ssa.If
+	trueIdx := 0
+	for _, b := range v.SSA.Blocks {
+		i := core.BlockIf(b)
+		if i == nil {
+			continue
+		}
+		cmp, ok := i.Cond.(*ssa.BinOp)
+		if !ok {
+			continue
+		}
+		isOne := func(x ssa.Value) bool {
+			k, ok := x.(*ssa.Const)
+			return ok && k.Value != nil && k.Float64() == 1
+		}
+		switch {
+		case pix != nil && cmp.X == pix && isOne(cmp.Y) && cmp.Op == token.GEQ:
+			guard, trueIdx = i, 0
+		case pix != nil && cmp.Y == pix && isOne(cmp.X) && cmp.Op == token.LEQ:
+			guard, trueIdx = i, 0
+		case pix != nil && cmp.X == pix && isOne(cmp.Y) && cmp.Op == token.LSS:
+			guard, trueIdx = i, 1
+		}
+	}
+	okWarn, why := false, "no test `deviationInPixels >= 1` on DeviationStats' pixel result"
+	if guard != nil {
+		// on the >= 1 side a log call prints the unit figure; it is not reachable from the other side
+		var logCall *ssa.Call
+		for _, b := range v.SSA.Blocks {
+			for _, in := range b.Instrs {
+				call, ok := in.(*ssa.Call)
+				if !ok || !strings.HasPrefix(core.StaticCalleeID(call), "log.Print") {
+					continue
+				}
+				for _, a := range call.Call.Args {
+					for _, e := range sliceLitElems(a) {
+						if core.Unwrap(e) == units && units != nil {
+							logCall = call
+						}
+					}
+				}
+			}
+		}
+		if logCall == nil {
+			why = "no log call prints the deviation in units"
+		} else {
+			viaOther, _ := core.Search{Fn: v.SSA, Target: instrIs(logCall), Edge: func(b *ssa.BasicBlock, k int) bool { return !(core.BlockIf(b) == guard && k == trueIdx) }}.Run()
+			missed, _ := core.Search{Fn: v.SSA, From: guard, Target: core.IsReturn, Barrier: instrIs(logCall), Edge: func(b *ssa.BasicBlock, k int) bool { return !(core.BlockIf(b) == guard && k != trueIdx) }}.Run()
+			okWarn = !viaOther && !missed
+			why = fmt.Sprintf("the warning is printed without the deviation reaching one pixel (%v) or can be skipped although it does (%v)", viaOther, missed)
+		}
+	}
+	c.Check(R, "warns-from-one-pixel/"+v.Name, v.Decl.Pos(), okWarn, "validation logs the deviation in units exactly when DeviationStats reports >= 1 pixel", "the deviation of an uneven grid is not reported as the property assumes: "+why)
+	c.Floor(R, 2)
 }
